@@ -144,6 +144,9 @@ func c11Run(c *c11Case) []vtr.Rec {
 			case "copyin":
 				src := c11Make(c.Types, toRows(op[1]), c.Prefix)
 				rec["res"] = frame.Copy(cur, src)
+			case "copyself":
+				a, al, b, bl := num(op[1]), num(op[2]), num(op[3]), num(op[4])
+				rec["res"] = frame.Copy(cur.Slice(a, a+al), cur.Slice(b, b+bl))
 			case "copyout":
 				k := num(op[1])
 				dst := c11Make(c.Types, nil, c.Prefix)
